@@ -209,54 +209,83 @@ func runC08(c *Ctx, r *Report) {
 			continue
 		}
 		// reader: uses of recv.F
-		recv := pr.reader.Pkg.TypesInfo.Defs[pr.reader.Decl.Recv.List[0].Names[0]]
 		read := map[string]string{}
-		walkNoLit(pr.reader.Body, func(n ast.Node) bool {
-			se, ok := n.(*ast.SelectorExpr)
-			if !ok {
-				return true
+		var scanReader func(rfn *Fn, depth int)
+		scanReader = func(rfn *Fn, depth int) {
+			if rfn == nil || rfn.Decl == nil || rfn.Decl.Recv == nil || len(rfn.Decl.Recv.List) != 1 || len(rfn.Decl.Recv.List[0].Names) != 1 {
+				return
 			}
-			v, b := p.FieldSel(pr.reader, se)
-			if v == nil {
-				return true
-			}
-			if id, ok := ast.Unparen(b).(*ast.Ident); !ok || p.ObjOf(pr.reader, id) != recv {
-				return true
-			}
-			// the enclosing operation
-			codec := "id"
-			switch par := p.parent[se].(type) {
-			case *ast.CallExpr:
-				isArg := false
-				for _, a := range par.Args {
-					if a == ast.Expr(se) {
-						isArg = true
+			recv := rfn.Pkg.TypesInfo.Defs[rfn.Decl.Recv.List[0].Names[0]]
+			walkNoLit(rfn.Body, func(n ast.Node) bool {
+				se, ok := n.(*ast.SelectorExpr)
+				if !ok {
+					return true
+				}
+				v, b := p.FieldSel(rfn, se)
+				if v == nil {
+					return true
+				}
+				if id, ok := ast.Unparen(b).(*ast.Ident); !ok || (p.ObjOf(rfn, id) != recv && p.CanonObj(rfn, id) != recv) {
+					return true
+				}
+				// the enclosing operation
+				codec := "id"
+				switch par := p.parent[se].(type) {
+				case *ast.CallExpr:
+					isArg := false
+					for _, a := range par.Args {
+						if a == ast.Expr(se) {
+							isArg = true
+						}
 					}
-				}
-				if isArg {
-					codec = codecOf(pr.reader, par)
-					if strings.HasPrefix(codec, "fp:Set") || (strings.HasPrefix(codec, "fp:") && !strings.HasPrefix(codec, "fp:ToPlain")) || codec == "id" {
-						codec = "id"
+					if isArg {
+						codec = codecOf(rfn, par)
+						if strings.HasPrefix(codec, "fp:Set") || (strings.HasPrefix(codec, "fp:") && !strings.HasPrefix(codec, "fp:ToPlain")) || codec == "id" {
+							codec = "id"
+						}
 					}
+				case *ast.SelectorExpr: // recv.F.Method(...)
+					if call, ok := p.parent[par].(*ast.CallExpr); ok && ast.Unparen(call.Fun) == ast.Expr(par) {
+						codec = codecOf(rfn, call)
+					}
+				case *ast.StarExpr: // *recv.F
+					if call, ok := p.parent[par].(*ast.CallExpr); ok {
+						codec = codecOf(rfn, call)
+					}
+				case *ast.BinaryExpr: // nil tests
+					return true
+				case *ast.RangeStmt:
+					codec = "id"
 				}
-			case *ast.SelectorExpr: // recv.F.Method(...)
-				if call, ok := p.parent[par].(*ast.CallExpr); ok && ast.Unparen(call.Fun) == ast.Expr(par) {
-					codec = codecOf(pr.reader, call)
+				if old, seen := read[v.Name()]; !seen || old == "id" {
+					read[v.Name()] = codec
 				}
-			case *ast.StarExpr: // *recv.F
-				if call, ok := p.parent[par].(*ast.CallExpr); ok {
-					codec = codecOf(pr.reader, call)
-				}
-			case *ast.BinaryExpr: // nil tests
 				return true
-			case *ast.RangeStmt:
-				codec = "id"
+			})
+			// the decoding may be split over methods of the same wire type called on the same receiver
+			if depth < 2 {
+				walkNoLit(rfn.Body, func(n ast.Node) bool {
+					call, ok := n.(*ast.CallExpr)
+					if !ok {
+						return true
+					}
+					se, ok := ast.Unparen(call.Fun).(*ast.SelectorExpr)
+					if !ok {
+						return true
+					}
+					if id, ok := ast.Unparen(se.X).(*ast.Ident); !ok || p.ObjOf(rfn, id) != recv {
+						return true
+					}
+					if cf := p.Callee(rfn, call); cf != nil {
+						if h := p.ByObj[cf]; h != nil && h != rfn && h.Pkg == rfn.Pkg {
+							scanReader(h, depth+1)
+						}
+					}
+					return true
+				})
 			}
-			if old, seen := read[v.Name()]; !seen || old == "id" {
-				read[v.Name()] = codec
-			}
-			return true
-		})
+		}
+		scanReader(pr.reader, 0)
 		var fields []string
 		for f := range written {
 			fields = append(fields, f)
